@@ -424,6 +424,25 @@ class RefModel:
                     out.extend(("eq", abs(v)) for v in ((pend - xnext[n]) / self.state_scale(s)).reshape(-1))
         return out
 
+    def amplification(self):
+        """SingleShooting: how strongly the propagated states react to a 1e-9 relative perturbation of x(t0)
+        (iterated nonlinear maps can be chaotic: round-off differences between two correct evaluations grow alike)"""
+        if self.cls != "SS":
+            return 1.0
+        base = self.traj()["Xnode"][self.N]
+        ph2 = dict(self.ph)
+        for s in self.states:
+            a = np.array(self.ph["xc:" + s["name"]], dtype=float).copy()
+            a[0] = a[0] * (1 + 1e-9) + 1e-9
+            ph2["xc:" + s["name"]] = a
+        other = RefModel(self.sp, ph2, None)
+        other.pval = self.pval
+        end = other.traj()["Xnode"][self.N]
+        num = max(float(np.max(np.abs(end[n] - base[n]))) for n in base)
+        den = 1e-9 * (1 + max(float(np.max(np.abs(self.ph["xc:" + s["name"]][0]))) for s in self.states))
+        amp = num / den
+        return amp if np.isfinite(amp) else float("inf")
+
     def ss_states(self):
         """SingleShooting: the recursion the read-back must report (list over nodes of dict name->array)"""
         return self.traj()["Xnode"]
